@@ -42,6 +42,7 @@ def dispatch (st : DrvState) (line : String) : DrvState × String :=
   match tokens line with
   | "frame" :: rest => (st, frameOp rest)
   | "sess" :: rest => sessLine st rest
+  | "auth" :: rest => (st, authOp rest)
   | "pad" :: "preamble" :: rest => (st, preambleOp rest)
   | "pad" :: rest => sessLine st rest
   | "pipe" :: rest => pipeLine st rest
